@@ -51,7 +51,7 @@ def patches():
 
 def norm(v):
     """comparable form of a result value: integer literals by value"""
-    if isinstance(v, Literal) and v.datatype == XSD.integer:
+    if isinstance(v, Literal) and v.datatype in (XSD.integer, XSD.decimal) and v.value is not None:
         return ("int", v.value)
     if isinstance(v, Literal) and v.datatype == XSD.boolean:
         return ("bool", bool(v.value))
@@ -139,7 +139,10 @@ def render(desc):
         text += " GROUP BY " + " ".join("?" + v for v in m["group_by"])
     if m.get("having"):
         func, arg, op, n = m["having"]
-        text += " HAVING (%s(?%s) %s %d)" % (func, arg, op, n)
+        if func == "KEY":
+            text += " HAVING (bound(?%s))" % arg      # a constraint on a group key, no aggregate in it
+        else:
+            text += " HAVING (%s(?%s) %s %d)" % (func, arg, op, n)
     if m.get("order"):
         text += " ORDER BY " + " ".join(("DESC(?%s)" if d == "desc" else "?%s") % v for d, v in m["order"])
     if m.get("limit"):
@@ -208,8 +211,12 @@ def body_mod(desc, F, *args):
     i = 0
     for pn, kind in desc["data"]:
         s = F.iri(args[i])
-        o = F.lit(args[i + 1]) if kind == "L" else F.iri(args[i + 1])
-        i += 2
+        if kind == "V":   # value + spelling: value-equal literals that are different terms
+            o = F.lit2(args[i + 1], args[i + 2])
+            i += 3
+        else:
+            o = F.lit(args[i + 1]) if kind == "L" else F.iri(args[i + 1])
+            i += 2
         g.add((s, R.IRIS[pn], o))
         if not tin((s, pn, o), data["default"]):
             data["default"].append((s, pn, o))
@@ -271,9 +278,13 @@ def body_mod(desc, F, *args):
         for keyrow, rows in groups:
             if m.get("having"):
                 func, arg, op, n = m["having"]
-                c = aggregate(rows, (func, False, arg, "_h"))[1]
-                if not {">": c > n, "=": c == n, "<": c < n}[op]:
-                    continue
+                if func == "KEY":
+                    if keyrow.get(arg) is None:
+                        continue
+                else:
+                    c = aggregate(rows, (func, False, arg, "_h"))[1]
+                    if not {">": c > n, "=": c == n, "<": c < n}[op]:
+                        continue
             row = {k: v for k, v in keyrow.items() if v is not None}
             for item in aggs:
                 val = aggregate(rows, item)
@@ -388,6 +399,8 @@ def modsets():
     out["group-two-aggs"] = dict(select=["s", ("COUNT", False, "o", "a"), ("MAX", False, "o", "b")], group_by=["s"])
     out["group-by-o-count-s"] = dict(select=["o", ("COUNT", False, "s", "a")], group_by=["o"])
     out["group-having"] = dict(select=["s", ("COUNT", False, "o", "a")], group_by=["s"], having=("COUNT", "o", ">", 1))
+    out["group-having-key-not-projected"] = dict(select=[("COUNT", False, "s", "a")], group_by=["o"], having=("KEY", "o", "", 0))
+    out["group-having-key-projected"] = dict(select=["o", ("COUNT", False, "s", "a")], group_by=["o"], having=("KEY", "o", "", 0))
     out["group-order-alias"] = dict(select=["s", ("COUNT", False, "o", "a")], group_by=["s"], order=[("desc", "a"), ("asc", "s")])
     out["group-order-min"] = dict(select=["s", ("MIN", False, "o", "a")], group_by=["s"], order=[("asc", "a"), ("asc", "s")])
     out["group-only"] = dict(select=["s"], group_by=["s"])
@@ -418,10 +431,18 @@ def obligations(tier, seed):
         group = BASES[bname]
         desc = {"name": "%s/%s" % (bname, mname), "group": group, "mods": mods, "data": [list(x) for x in data]}
         desc["text"] = render(desc)
-        nsym = 2 * len(data) + (1 if mods.get("limit") else 0) + (1 if mods.get("offset") else 0)
+        nd = sum(3 if kd == "V" else 2 for _, kd in data)
+        nsym = nd + (1 if mods.get("limit") else 0) + (1 if mods.get("offset") else 0)
         sig = [("x%d" % i, "i") for i in range(nsym)]
         pre = []
-        k = 2 * len(data)
+        k = nd
+        j = 0
+        for _, kd in data:
+            if kd == "V":
+                pre.append("0 <= x%d <= 1" % (j + 2))   # two spellings are enough
+                j += 3
+            else:
+                j += 2
         n = len(data)
         if mods.get("limit"):
             pre.append("0 <= x%d <= %d" % (k, n + 1))
@@ -450,6 +471,12 @@ def obligations(tier, seed):
                 if tier == "quick" and n == 3 and mods.get("offset"):
                     continue  # ~400-500 s CPU each: thorough tier
                 add("bgp", mname, mods, data, {0: 60, 1: 60, 2: 200, 3: 500 if tier == "quick" else 1500, 4: 2500}[n])
+    # value-equal literals that are different terms (1 vs "1.0"^^xsd:decimal): ORDER BY only (DISTINCT / GROUP BY are term-based)
+    for mname in ("order-o", "order-o-s", "order-desc-o-s", "order-s-desc-o", "order-o-limit"):
+        for n in ((2, 3) if tier == "quick" else (2, 3, 4)):
+            if mname == "order-o-limit" and n > 2 and tier == "quick":
+                continue
+            add("bgp", mname, M[mname], [("p", "V")] * n, {2: 200, 3: 600, 4: 2000}[n])
     U = unbound_modsets()
     for bname in ("union", "optional"):
         for mname, mods in U.items():
